@@ -110,6 +110,10 @@ type gen struct {
 	usedNT   map[string]bool
 	catUsed  map[string]bool
 	itemCat  string
+
+	optSuffix string   // optInstantiationSuffix in effect
+	rare      []string // option lines of the rarely used compiler options
+	laInputs  []string // lookahead targets that are user inputs as well
 }
 
 func (g *gen) on(opt string) bool {
@@ -145,6 +149,8 @@ func New(r *rand.Rand, name string, cfg Config) *Grammar {
 	g := &gen{r: r, cfg: cfg, n: newNamer(r, cfg.Hostile), feat: map[string]bool{}, tmpl: map[string][]string{},
 		typed: map[string]string{}, catOf: map[string][]string{}, usedNT: map[string]bool{}, catUsed: map[string]bool{}}
 	g.n.used[norm(name)] = true
+	g.optSuffix = "opt"
+	g.rareOptions()
 	noParser := cfg.NoParser
 	g.lexer()
 	if !noParser {
@@ -189,6 +195,37 @@ func New(r *rand.Rand, name string, cfg Config) *Grammar {
 	return &Grammar{Name: name, Text: b.String(), Features: feats, Names: g.n.all, Lalr: lalr}
 }
 
+// rareOptions draws the rarely used compiler options that are legal for the Go
+// target and do not need anything from the grammar. They are not part of the
+// pairwise option array of C17.
+func (g *gen) rareOptions() {
+	if g.p(3) {
+		g.rare = append(g.rare, "aliasIncludesOptSuffix = false")
+		g.f("option:aliasIncludesOptSuffix=false")
+	}
+	if g.p(4) {
+		g.optSuffix = []string{"_opt", "Opt", "-opt"}[g.r.Intn(3)]
+		g.rare = append(g.rare, fmt.Sprintf("optInstantiationSuffix = %q", g.optSuffix))
+		g.f("option:optInstantiationSuffix")
+	}
+	if g.p(5) {
+		g.rare = append(g.rare, "genCopyright = true")
+		g.f("option:genCopyright")
+	}
+	if g.p(6) {
+		g.rare = append(g.rare, "maxLookahead = 8")
+		g.f("option:maxLookahead")
+	}
+	if g.p(6) {
+		g.rare = append(g.rare, "expansionLimit = 4096", "expansionWarn = 64")
+		g.f("option:expansionLimit")
+	}
+	if g.p(6) {
+		g.rare = append(g.rare, "noEmptyRules = true")
+		g.f("option:noEmptyRules")
+	}
+}
+
 func (g *gen) usedCats() []string {
 	var r []string
 	for _, c := range g.cats {
@@ -201,6 +238,9 @@ func (g *gen) usedCats() []string {
 
 // options prints the option lines for the vector.
 func (g *gen) options(b *strings.Builder) {
+	for _, l := range g.rare {
+		b.WriteString(l + "\n")
+	}
 	for _, o := range BoolOptions {
 		v, ok := g.cfg.Opt[o]
 		if !ok {
@@ -944,6 +984,36 @@ func (g *gen) parserSection() {
 		}
 		alts = append(alts, alt)
 	}
+	// a rule that refers to both X and Xopt before an action that uses $X
+	if code && g.p(2) {
+		var cand []*nonterm
+		for _, h := range g.helpers {
+			if h.params == "" && !h.open && !strings.Contains(h.name, "-") {
+				cand = append(cand, h)
+			}
+		}
+		if len(cand) > 0 {
+			h := cand[r.Intn(len(cand))]
+			kw := g.termNotIn(itemFirst)
+			itemFirst[kw] = true
+			d1 := g.termNotIn(nil)
+			d2 := g.termNotIn(h.first)
+			g.usedNT[h.name] = true
+			use := fmt.Sprintf("usePos(${%s.offset})", h.name)
+			g.tmplOnce("onAfterParser", "func usePos(a ...int) {}")
+			if h.typ != "" || g.p(3) {
+				use = fmt.Sprintf("useValue($%s)", h.name)
+				g.tmplOnce("onAfterParser", "func useValue(v interface{}) {}")
+			}
+			alt := fmt.Sprintf("%s %s %s %s%s %s { %s }", kw, h.name, d1, h.name, g.optSuffix, d2, use)
+			if itemCat != "" || g.p(3) {
+				alt += " -> " + g.newType()
+			}
+			alts = append(alts, alt)
+			g.f("symbol-and-its-opt-before-action")
+		}
+	}
+
 	// empty productions that carry a rule precedence: written directly (%empty %prec T)
 	// and as the expansion of a rule whose parts are all optional
 	for k := 0; k < 2; k++ {
@@ -1013,7 +1083,7 @@ func (g *gen) parserSection() {
 		f := g.n.ident(2)
 		def("%s -> %s :\n    %s+=%s+ ;", root, rootType, f, item)
 	default:
-		def("%s -> %s :\n    %s %sopt ;", root, rootType, item, root)
+		def("%s -> %s :\n    %s %s%s ;", root, rootType, item, root, g.optSuffix)
 		g.f("opt-suffix")
 	}
 	if blockNT != "" {
@@ -1025,6 +1095,11 @@ func (g *gen) parserSection() {
 			inputs = append(inputs, blockNT+" no-eoi")
 			g.f("input-no-eoi")
 		}
+	}
+	// lookahead targets that are user inputs at the same time
+	for _, n := range g.laInputs {
+		inputs = append(inputs, n+" no-eoi")
+		g.f("lookahead-target-is-no-eoi-input")
 	}
 	// further inputs
 	for _, h := range g.helpers {
@@ -1178,6 +1253,10 @@ func (g *gen) helper(def func(string, ...interface{})) {
 			alt += " { $$ = " + fmt.Sprint(i) + " }"
 			g.f("typed-nonterminal-action")
 			g.hasValue = true
+		} else if code && g.p(12) {
+			// the value of a nonterminal without a declared type is an interface{}
+			alt += " { $$ = " + fmt.Sprint(i) + " }"
+			g.f("untyped-nonterminal-value-action")
 		}
 		if own {
 			t := g.newType()
@@ -1304,6 +1383,9 @@ func (g *gen) lookaheadAlts(def func(string, ...interface{}), kw string) []strin
 		used[t] = true
 		marks = append(marks, t)
 		def("%s :\n    %s %s ;", la.name, open, t)
+		if g.p(3) {
+			g.laInputs = append(g.laInputs, la.name)
+		}
 	}
 	// alternative i is taken when la_i matches and la_j (j<i) do not
 	for i, la := range g.la {
